@@ -12,6 +12,7 @@ pub uninterp spec fn hull_idx(points: Seq<Point2>) -> Seq<usize>;
 pub fn convex_hull_idx(points: &[Point2]) -> (r: Vec<usize>)
     ensures
         r@ == hull_idx(points@),
+        r@.len() <= points@.len(),
         forall|k: int| 0 <= k < r@.len() ==> (#[trigger] r@[k] as int) < points@.len(),
 { unimplemented!() }
 // std i32::signum
